@@ -19,6 +19,7 @@ CONSTANTS
   StaleClose = FALSE
   NoWatcher = FALSE
   InitBeforeCheck = FALSE
+  EarlyUnlock = FALSE
 INVARIANTS TypeOK AtMostOneDisc RegisterOnce DiscSeesDisconnected NoCrash OwnClose ClosedForACause GoneAfterDisc WireOrdered AllWritten
 
 CHECK_DEADLOCK FALSE
